@@ -550,3 +550,19 @@ def known_null_call(ctx: Ctx, f: FunctionInfo, n: Node, attr: str) -> bool:
     """On arrival at n, is the result of a `<x>.attr(...)` call known to be None (tested directly or through a variable)?"""
     return any(pol == "null" and isinstance(e, ast.Call) and isinstance(e.func, ast.Attribute) and e.func.attr == attr
                for pol, e, _at in facts_at(ctx, f, n))
+
+
+def effective_test(ctx: Ctx, f: FunctionInfo, b: Node):
+    """The expression a branch decides, looking through a flag variable with a single reaching definition.
+    Returns (expr, node id where it is evaluated)."""
+    if b.kind != "branch" or b.ast is None:
+        return None
+    if isinstance(b.ast, ast.Name):
+        g = ctx.cfg(f)
+        defs = ctx.rd(f).reaching(b.id, b.ast.id)
+        if len(defs) == 1:
+            d = g.nodes[next(iter(defs))]
+            if d.kind == "stmt" and isinstance(d.ast, ast.Assign) and len(d.ast.targets) == 1 and isinstance(d.ast.targets[0], ast.Name) \
+                    and isinstance(d.ast.value, (ast.Compare, ast.Call, ast.BoolOp, ast.UnaryOp)):
+                return d.ast.value, d.id
+    return b.ast, b.id
